@@ -253,15 +253,15 @@ Proof.
 Qed.
 
 (* ------------------------------------------------------------ the theorem *)
-Theorem align_nnz_values (size : Z) (Ms : list (smatrix R)) :
+Theorem align_nnz_by_dummy_values (size : Z) (Ms : list (smatrix R)) :
   Forall swf Ms ->
-  exists As, align_nnz ROps size Ms = Some As /\ length As = length Ms /\
+  exists As, align_nnz_by_dummy ROps size Ms = Some As /\ length As = length Ms /\
     forall i M A, nth_error Ms i = Some M -> nth_error As i = Some A ->
       swf A /\
       (forall key, In key (skeys A) <-> exists M', In M' Ms /\ In key (skeys M')) /\
       (forall key, sget ROps A key = sget ROps M key).
 Proof.
-  intros HF. unfold align_nnz.
+  intros HF. unfold align_nnz_by_dummy.
   set (D := dummy_scale ROps size Ms). set (d := dummy_csr ROps D Ms).
   destruct (dummy_scale_pos size Ms) as [HD1 HgD]. fold D in HD1, HgD.
   assert (D > 0) as HD by lra.
